@@ -93,6 +93,13 @@ impl img::DiskImage for Img {
                 let chs_list = skew::fat_blocking(deblocked_ts_list,self.heads)?;
                 let mut src_offset = 0;
                 let padded = super::quantize_block(dat, chs_list.len()*sec_size);
+                // refuse the whole block before writing any part of it
+                for [cyl,head,lsec] in &chs_list {
+                    if *head>=self.heads || self.ch_2_track([*cyl,*head])>=self.track_count() || *lsec<1 || *lsec>self.sectors as usize {
+                        error!("block extends beyond cylinder {} head {} sector {}",self.cylinders-1,self.heads-1,self.sectors);
+                        return Err(Box::new(img::Error::SectorAccess));
+                    }
+                }
                 for [cyl,head,lsec] in chs_list {
                     match self.write_sector(cyl,head,lsec,&padded[src_offset..src_offset+sec_size].to_vec()) {
                         Ok(_) => src_offset += sec_size,
@@ -107,8 +114,8 @@ impl img::DiskImage for Img {
     fn read_sector(&mut self,cyl: usize,head: usize,sec: usize) -> Result<Vec<u8>,DYNERR> {
         let track = self.ch_2_track([cyl, head]);
         trace!("reading {}/{}/{}",cyl,head,sec);
-        if track>=self.track_count() || sec<1 || sec>self.sectors as usize {
-            error!("track/sector range should be 0-{}/1-{}",self.track_count()-1,self.sectors);
+        if head>=self.heads || track>=self.track_count() || sec<1 || sec>self.sectors as usize {
+            error!("track/sector range should be 0-{}/1-{}, head 0-{}",self.track_count()-1,self.sectors,self.heads-1);
             return Err(Box::new(img::Error::SectorAccess));
         }
         let offset = (track*self.sectors as usize + sec - 1)*self.sec_size;
@@ -117,8 +124,8 @@ impl img::DiskImage for Img {
     fn write_sector(&mut self,cyl: usize,head: usize,sec: usize,dat: &[u8]) -> STDRESULT {
         let track = self.ch_2_track([cyl, head]);
         trace!("writing {}/{}/{}",cyl,head,sec);
-        if track>=self.track_count() || sec<1 || sec>self.sectors as usize {
-            error!("track/sector range should be 0-{}/1-{}",self.track_count()-1,self.sectors);
+        if head>=self.heads || track>=self.track_count() || sec<1 || sec>self.sectors as usize {
+            error!("track/sector range should be 0-{}/1-{}, head 0-{}",self.track_count()-1,self.sectors,self.heads-1);
             return Err(Box::new(img::Error::SectorAccess));
         }
         let offset = (track*self.sectors as usize + sec - 1)*self.sec_size;
